@@ -110,6 +110,21 @@ func c08World(t *testing.T, r *simcore.Run) any {
 	return info
 }
 
+// c08Await gives the receiving loop bounded time (3 ms at a time, 60 ms in all - a burst is at
+// most seven datagrams, each costing a listener at most a poll timeout or two) to get to the
+// sentinel; it returns false when the run was torn down meanwhile.
+func c08Await(r *simcore.Run, node *simcore.Node, tag string, done func() bool) bool {
+	for i := 0; i < 20; i++ {
+		if r.Sleep(fmt.Sprintf("%s:%d", tag, i), node, 3*time.Millisecond).Killed {
+			return false
+		}
+		if done() {
+			break
+		}
+	}
+	return true
+}
+
 func c08Finish(r *simcore.Run, name string) {
 	reason := r.Loop(3_000_000, 0)
 	r.SetVT()
@@ -185,7 +200,9 @@ func c08IPListener(r *simcore.Run, tp *simcore.Tape) map[string]any {
 			}
 			s := w.net.NewDatagram(src, w.srvAddr, hdr(), "sentinel")
 			w.net.Inject(s, 10*time.Microsecond)
-			if r.Sleep(fmt.Sprintf("sentinel:%d", round), w.cli.Node, 3*time.Millisecond).Killed {
+			// the listener serves its queue in order, and every reply whose kernel transmit timestamp
+			// is missing costs it the poll timeout: the sentinel is answered once the queue is served
+			if !c08Await(r, w.cli.Node, fmt.Sprintf("sentinel:%d", round), func() bool { return replies[s.ID] >= 1 }) {
 				return
 			}
 			if replies[s.ID] != 1 {
@@ -420,7 +437,7 @@ func c08SCIONListener(r *simcore.Run, tp *simcore.Tape) map[string]any {
 			// and an echo request on the port that was attacked
 			echo := buildSCION(scCliIA, scSrvIA, scCliIP, scSrvIP, 0, 0, []int{2}, slayers.SCMPTypeEchoRequest, []byte("sentinel echo"))
 			w.net.Inject(w.net.NewDatagram(rtr, netip.AddrPortFrom(netip.MustParseAddr(scSrvIP), port), echo, "sentinel"), 20*time.Microsecond)
-			if r.Sleep(fmt.Sprintf("sentinel:%d", round), w.cli.Node, 3*time.Millisecond).Killed {
+			if !c08Await(r, w.cli.Node, fmt.Sprintf("sentinel:%d", round), func() bool { return replies-n0 >= 2 }) {
 				return
 			}
 			if replies-n0 < 2 {
